@@ -31,6 +31,9 @@ SpecStep(e) ==
   CASE e.op = "AddConn" -> AddConn(e.u)
     [] e.op = "RemoveConn" -> RemoveConn(e.u)
     [] e.op = "CloseSess" -> CloseSess(e.u)
+    [] e.op = "RemoteAdv" -> RemoteAdv(e.e)
+    [] e.op = "RemoteWithdraw" -> RemoteWithdraw(e.e)
+    [] e.op = "RemoteStatus" -> RemoteStatus(e.allow)
     [] e.op = "Select" -> Select(e.e, e.allow)
     [] OTHER -> TRUE
 
@@ -58,8 +61,8 @@ StepViolations(e) ==
     (IF e.op = "Select" /\ Registered(e.e) # {} /\ e.res \notin Registered(e.e) THEN {"SelectValid"} ELSE {})
     \cup (IF e.op = "Select" /\ Registered(e.e) = {} /\ e.res \notin {NONE, REMOTE} THEN {"SelectValid"} ELSE {})
     \cup (IF e.op = "Select" /\ ~e.allow /\ e.res = REMOTE THEN {"NoRemoteWhenNotAllowed"} ELSE {})
-    \cup (IF e.op = "Select" /\ e.res = REMOTE /\ e.e \notin Remote THEN {"RemoteOnlyIfAdvertised"} ELSE {})
-    \cup (IF e.op = "Select" /\ Registered(e.e) = {} /\ e.allow /\ e.e \in Remote /\ e.res # REMOTE
+    \cup (IF e.op = "Select" /\ e.res = REMOTE /\ ~RemoteServes(e.e) THEN {"RemoteOnlyIfAdvertised"} ELSE {})
+    \cup (IF e.op = "Select" /\ Registered(e.e) = {} /\ e.allow /\ RemoteServes(e.e) /\ e.res # REMOTE
           THEN {"RemoteWhenAvailable"} ELSE {})
     \cup (IF e.op = "Quiesce" /\ ~ConcOK(e.calls) THEN {"ConcurrentSelectValid"} ELSE {})
 
@@ -83,6 +86,11 @@ TraceNext ==
                      ELSE IF e.op = "CloseSess" THEN closed \cup {e.u}
                      ELSE IF e.op = "RemoveConn" THEN closed \ {e.u}
                      ELSE closed
+        /\ radv' = IF reset THEN Remote
+                   ELSE IF e.op = "RemoteAdv" THEN radv \cup {e.e}
+                   ELSE IF e.op = "RemoteWithdraw" THEN radv \ {e.e}
+                   ELSE radv
+        /\ rup' = IF reset THEN TRUE ELSE IF e.op = "RemoteStatus" THEN e.allow ELSE rup
         /\ last' = IF e.op = "Select" THEN e.res ELSE ""
         /\ recent' = IF reset \/ quiesce THEN [x \in Ep |-> <<>>]
                      ELSE IF e.op \in {"AddConn", "RemoveConn"}
